@@ -24,7 +24,7 @@
    copies of computeCacheHash (ctlog.go / cmd/recompute-cache) are one function in the model
    (ckey / leaf_ckey); that the tool's copy computes it is what the correspondence run checks by
    running the real binary (cache rows compared row by row, monitor C07.cacherow). *)
-From SL Require Import Merkle.TilesProofs Ctlog.Model Ctlog.Spec Ctlog.Inv2 Ctlog.Theorems2 Ctlog.Theorems3 Ctlog.RecomputeOk Ctlog.Example Ctlog.Legacy Ctlog.LegacyProofs Base.Cryptobyte Gen.Builders Ctlog.GenProofs.
+From SL Require Import Merkle.TilesProofs Ctlog.Model Ctlog.Spec Ctlog.Inv2 Ctlog.Theorems2 Ctlog.Theorems3 Ctlog.RecomputeOk Ctlog.Example Ctlog.Legacy Ctlog.LegacyProofs Base.Cryptobyte Gen.Builders Ctlog.GenProofs Ctlog.Origin.
 
 Theorem C07_resubmission_joins_pending : forall sha c p inseq cache e low victim wid wd,
   in_pool sha p (ckey sha e) = Some wd \/ (in_pool sha p (ckey sha e) = None /\ in_pool sha inseq (ckey sha e) = Some wd) ->
@@ -143,3 +143,24 @@ Theorem C07_cache_key_both_hash_the_built_bytes :
   gen_recompute_cache_key_returns = "cacheHash(sha256.Sum256(b.BytesOrPanic()))"%string.
 Proof. exact cache_key_return_wrappers. Qed.
 Print Assumptions C07_cache_key_both_hash_the_built_bytes.
+
+(* ---------- "each sequenced leaf corresponds to an admitted submission" ----------
+   For EVERY event list (faults, crashes, restarts, any number of instances, tampering, cache
+   loss, recompute-cache): every leaf of every committed tree is leaf_of e idx ts, with its names
+   line, for an entry e carried by an EvSubmit of that very history. Nothing is invented, nothing
+   is picked up from (possibly tampered) storage. (That the index in the leaf is its position is
+   C04_leaf_i_carries_index_i; that an acknowledged index holds the acknowledged entry is
+   C07_every_answer_names_the_entry.) *)
+Theorem C07_every_committed_leaf_was_submitted : forall (sha : bytes -> bytes) evs c ls sl,
+  In (c, ls) (w_lockhist (run sha evs init)) -> In sl ls ->
+  exists e idx ts, submitted evs e /\ sl = mkSleaf (leaf_of sha e idx ts) (names_line (e_names e) ts).
+Proof. exact committed_leaves_were_submitted. Qed.
+Print Assumptions C07_every_committed_leaf_was_submitted.
+
+Example C07_committed_leaf_example :
+  exists c ls sl, In (c, ls) (w_lockhist world1) /\ In sl ls /\ submitted history1 (ent x31) /\
+    sl = mkSleaf (leaf_of toy_sha (ent x31) 0 20) (names_line (e_names (ent x31)) 20).
+Proof.
+  eexists _, _, _. split; [vm_compute; right; left; reflexivity|]. split; [left; reflexivity|].
+  split; [|reflexivity]. exists (EvSubmit 0 (ent x31) false 0 []). split; [vm_compute; tauto|reflexivity].
+Qed.
